@@ -160,9 +160,49 @@ def cases(rng, tier, stats):
                 lines.append("FILE " + C.hx(f"{root}/{fname}") + " " + C.hx(G.source(body, "lines")))
         lines.append(run_req(G.source(main, "lines")))
         out.append(C.Case("module-split", lines, cmp_run(), oracle, info={"units": units, "files": list(units), "run_index": len(lines) - 1}, nontrivial=len(units) >= 2))
+    # `_ডাইরেক্টরি` is the directory of the file it is written in — also when the interpreter is started with a bare relative file name
+    # (`pakhi main.pakhi` from inside the directory) and the module is a sibling of the root file or sits in sub-directories:
+    # the same program is run with the absolute and with the relative main path, both must read every module's own data file
+    root = "@ROOT@"
+    nd = 0
+    layouts = [["helper.pakhi"], ["lib/sub.pakhi"], ["helper.pakhi", "lib/sub.pakhi"], ["lib/deep/x.pakhi", "helper.pakhi"],
+               ["helper.pakhi", "other.pakhi"], ["lib/sub.pakhi", "lib/deep/x.pakhi"]]
+    for files in layouts:
+        for nested in (False, True):
+            lines = ["RESET", "FILE " + C.hx(f"{root}/data.txt") + " " + C.hx("মূল-তথ্য")]
+            main = 'দেখাও _রিড-ফাইল(_ডাইরেক্টরি + "data.txt");\n'
+            prev = None
+            for k, f in enumerate(files):
+                d = f.rsplit("/", 1)[0] + "/" if "/" in f else ""
+                body = 'দেখাও _রিড-ফাইল(_ডাইরেক্টরি + "data.txt");\nনাম এখানে = _ডাইরেক্টরি;\n'
+                if nested and prev is not None:
+                    body += f'মডিউল ভিতর = "{prev}";\nদেখাও ভিতর/এখানে == এখানে;\n'
+                lines.append("FILE " + C.hx(f"{root}/{f}") + " " + C.hx(body))
+                if d:
+                    lines.append("FILE " + C.hx(f"{root}/{d}data.txt") + " " + C.hx("তথ্য-" + d))
+                if not nested or k == len(files) - 1:
+                    main += f'মডিউল ম{G.bn_digits(str(k))} = "{f}";\nদেখাও ম{G.bn_digits(str(k))}/এখানে == _ডাইরেক্টরি;\n'
+                prev = f
+            main += 'দেখাও "শেষ";\n'
+            lines += [run_req(main), run_req(main, rel=1)]
+            out.append(C.Case("dirname-relative-main", lines, cmp_run(), dirname_oracle, info={"files": files, "nested": nested, "src": main, "run_index": len(lines) - 2}))
+            nd += 1
+    stats["dirname_relative_main"] = nd
     stats["programs"] = n
     stats["files_per_program"] = hist
     return out
+
+
+def dirname_oracle(case, impl, model):
+    """the run started with the relative main path behaves like the run started with the absolute one, and both end normally"""
+    i = case.info["run_index"]
+    a, b = C.RunAns(impl[i]), C.RunAns(impl[i + 1])
+    probs = []
+    if a.kind != "ok" or b.kind != "ok":
+        probs.append(f"every module reads its own data file: absolute start ended {' '.join(a.status[:3])}, relative start ended {' '.join(b.status[:3])}")
+    if a.out != b.out:
+        probs.append(f"started as `pakhi main.pakhi` the program prints {b.out!r}, started with the absolute path {a.out!r}")
+    return probs
 
 
 def oracle(case, impl, model):
